@@ -105,6 +105,7 @@ CHECKS = {
             {"name": "TestC06Sandbox", "checks": [2500, 100000], "shards": [2, 16], "floor": 0.6},
             {"name": "TestC06Matrix", "enum": True},
             {"name": "TestC06Named", "checks": [300, 6000], "shards": [1, 8], "floor": 0.5},
+            {"name": "TestC06Flip", "checks": [300, 6000], "shards": [1, 8], "floor": 0.5},
             K,
         ],
         "assumptions": ["carriers that are themselves function calls (macro names, parent) are allowed by the policy so that only the occurrence is forbidden",
